@@ -46,6 +46,34 @@ fn arena_for(addr: u64, len: u64) -> Option<Arena> {
     Arena::map(lo, ((hi - lo) / 4096 + 1) as usize)
 }
 
+/// code a forced-boolean trampoline forwards to (a library that keeps its boolean stubs as ordinary functions of its own
+/// instead of generating them): up to three hops of `jmp rel32` / `mov rax, imm64; jmp rax` / `jmp [rip+0]`, each
+/// destination's first 24 bytes if it lies in executable, readable memory outside the given trampoline
+fn follow(tramp: u64, trampb: &[u8]) -> Vec<Value> {
+    let maps = watch::proc_maps();
+    let mut out = Vec::new();
+    let (mut at, mut code) = (tramp, trampb.to_vec());
+    for _ in 0..3 {
+        let dest = if code.len() >= 5 && code[0] == 0xE9 {
+            (at + 5).wrapping_add(i32::from_le_bytes([code[1], code[2], code[3], code[4]]) as i64 as u64)
+        } else if code.len() >= 12 && code[0] == 0x48 && code[1] == 0xB8 && code[10] == 0xFF && code[11] == 0xE0 {
+            u64::from_le_bytes(code[2..10].try_into().unwrap())
+        } else if code.len() >= 14 && code[0] == 0xFF && code[1] == 0x25 && code[2..6] == [0, 0, 0, 0] {
+            u64::from_le_bytes(code[6..14].try_into().unwrap())
+        } else {
+            break;
+        };
+        let ok = maps.iter().any(|m| m.lo <= dest && dest + 24 <= m.hi && m.perms.starts_with('r') && m.perms.as_bytes().get(2) == Some(&b'x'));
+        if !ok {
+            break;
+        }
+        code = unsafe { std::slice::from_raw_parts(dest as *const u8, 24) }.to_vec();
+        out.push(json!({"base": a8(dest), "bytes": code}));
+        at = dest;
+    }
+    out
+}
+
 /// the 16-byte entry slot as far as it is readable (bytes behind the end of the mapping read as 0xCC)
 fn slot16(addr: u64, avail: usize) -> Vec<u8> {
     let n = avail.min(16);
@@ -304,8 +332,10 @@ fn run_one(sc: &Value) {
     emit(json!({"ev":"Installed","outcome":outcome,"cls":cls,"msg":msg,"kind":kind,"v":if flavour=="bool"{want_id}else{0},
         "func":a8(func_addr),"tramp":a8(tramp),"tramp_name":format!("m{:x}", tramp),"fake":a8(fake_addr),"fake_known":fake_addr!=0,
         "entry":entry,"trampb":trampb,"origb":origb,"want":want_id,"orig_id":ORIG_ID,
+        "extra": if flavour == "bool" && tramp != 0 { follow(tramp, &trampb) } else { Vec::new() },
         "quiet_mmap":interpose::QUIET_COUNT.swap(0, SeqCst),"live":interpose::owned_live()}));
-    let res = call_stub(func_addr);
+    // a forced boolean is what `al` holds: the rest of eax is not part of the value
+    let res = if flavour == "bool" && outcome == "ok" { call_stub(func_addr) & 0xff } else { call_stub(func_addr) };
     emit(json!({"ev":"Called","phase":"installed","res":res}));
     if has_prev {
         emit(json!({"ev":"Neighbour","which":"prev","res":call_stub(func_addr - 16),"want":ORIG_ID + 1}));
